@@ -766,6 +766,34 @@ func (e *Enc) guardFor(addrV ssa.Value) (lockAddr string, ok bool) {
 	return "", false
 }
 
+// guardedValue: v was loaded from a guarded field (a map reference); operations on the map need the lock too.
+func (e *Enc) guardedValue(v ssa.Value) (string, bool) {
+	u, ok := v.(*ssa.UnOp)
+	if !ok || u.Op != token.MUL {
+		return "", false
+	}
+	return e.guardFor(u.X)
+}
+
+func (e *Enc) lockCheckMap(m ssa.Value, write bool, pos token.Pos) {
+	la, ok := e.guardedValue(m)
+	if !ok {
+		return
+	}
+	if e.ct != nil && e.ct.Opts["constructor"] != "" {
+		return
+	}
+	held := app("select", e.heapGet(e.cur, "$lock", "Int"), la)
+	goal := app(">=", held, "1")
+	kind := "mapread"
+	if write {
+		goal = app("=", held, "2")
+		kind = "mapwrite"
+	}
+	e.usedLock = true
+	e.oblige("lock", kind+":"+descOf(e.exprText(m, nil)), "", pos, e.guardGoal(goal))
+}
+
 func (e *Enc) lockCheck(addrV ssa.Value, write bool, pos token.Pos) {
 	la, ok := e.guardFor(addrV)
 	if !ok {
